@@ -367,22 +367,34 @@ fn entries() -> Vec<Entry> {
             }
         });
     }
-    // digests / outpoints / key material of arbitrary length
+    // digests / outpoints / key material of arbitrary length. A digest is an arbitrary 32-byte string: the seeds include
+    // the values around the group order n and the field prime p, where a scalar conversion may reject instead of reduce
+    let digest_seeds = || -> Vec<Vec<u8>> {
+        let n = hex::decode("fffffffffffffffffffffffffffffffebaaedce6af48a03bbfd25e8cd0364141").unwrap();
+        let pf = hex::decode("fffffffffffffffffffffffffffffffffffffffffffffffffffffffefffffc2f").unwrap();
+        let mut nm1 = n.clone();
+        nm1[31] -= 1;
+        let mut np1 = n.clone();
+        np1[31] += 1;
+        let mut half = vec![0u8; 32];
+        half[0] = 0x80;
+        vec![vec![0x11; 32], vec![0u8; 32], nm1, n, np1, pf, vec![0xff; 32], half]
+    };
     {
         let (pk2, sig2) = (pk.clone(), sig.clone());
-        bytes_entry!("ECDSA::verify_hashbuf(digest)", vec![vec![0x11; 32]], move |b: &[u8]| {
+        bytes_entry!("ECDSA::verify_hashbuf(digest)", digest_seeds(), move |b: &[u8]| {
             let _ = mark(ECDSA::verify_hashbuf(b, &pk2, &sig2));
         });
     }
     {
         let k2 = k.clone();
-        bytes_entry!("ECDSA::sign_digest_with_deterministic_k(digest)", vec![vec![0x11; 32]], move |b: &[u8]| {
+        bytes_entry!("ECDSA::sign_digest_with_deterministic_k(digest)", digest_seeds(), move |b: &[u8]| {
             let _ = mark(ECDSA::sign_digest_with_deterministic_k(&k2, b));
         });
     }
     {
         let sig2 = Signature::from_compact_bytes(&sig.to_compact_bytes(None)).unwrap();
-        bytes_entry!("Signature::recover_public_key_from_digest(digest)", vec![vec![0x11; 32]], move |b: &[u8]| {
+        bytes_entry!("Signature::recover_public_key_from_digest(digest)", digest_seeds(), move |b: &[u8]| {
             let _ = mark(sig2.recover_public_key_from_digest(b));
         });
     }
